@@ -229,6 +229,16 @@ def gen_scenario(rng, tier, knobs):
             round(rng.uniform(0.0, 3.0), 2), 'partition',
             rng.choice(['client', 'pilot.0000']),
             rng.choice([0.5, 2.0, 5.0])]], key=lambda o: o[0])
+    # tasks which run in a named environment: they wait in the pilot until
+    # the environment is registered (what `Pilot.prepare_env` leads to; here
+    # the driver publishes the registration on the pilot side).  Drawn late.
+    if rng.random() < knobs.get('named_env_prob', 0.0):
+        for t in tasks:
+            if rng.random() < 0.4 and t['descr'].get('ranks', 1) == 1:
+                t['descr']['named_env'] = 'env0'
+        sc['ops'] = sorted(sc['ops'] + [[
+            round(rng.uniform(0.0, 4.0), 2), 'named_env', 'env0']],
+            key=lambda o: o[0])
     # cancel requests issued by the application a moment before the process
     # of the named task ends by itself (triggered by its spawn): they reach
     # the executor around the instant of the exit.  Drawn last.
@@ -528,7 +538,7 @@ def run(seed, sc, trace=None, tier='quick'):
             for i, t in enumerate(sc['tasks']):
                 tl.append((t['at'], 0, 'task', i))
             for j, op in enumerate(sc['ops']):
-                if op[1] in ('cancel', 'partition'):
+                if op[1] in ('cancel', 'partition', 'named_env'):
                     tl.append((op[0], 1, 'op', j))
             tl.sort()
             t0 = sim.now
@@ -577,6 +587,23 @@ def run(seed, sc, trace=None, tier='quick'):
                     op = sc['ops'][idx]
                     sim.fault('partition')
                     net.partitions = {op[2]: sim.now + op[3]}
+                elif sc['ops'][idx][1] == 'named_env':
+                    flush()
+                    preg = w['pilot'].reg
+                    with C.group('agent_0'):
+                        epub = N.Publisher(rpc.CONTROL_PUBSUB, url=preg[
+                            'bridges.%s' % rpc.CONTROL_PUBSUB]['addr_pub'])
+                    sim.probe('named_env_registered')
+                    # (what the agent's `_prepare_env` leaves behind before
+                    # it announces the environment)
+                    os.makedirs('%s/env' % w['psbox'], exist_ok=True)
+                    with open('%s/env/rp_named_env.%s.env' % (
+                            w['psbox'], sc['ops'][idx][2]), 'w') as f:
+                        f.write("export RP_NAMED_ENV='%s'\n"
+                                % sc['ops'][idx][2])
+                    epub.put(rpc.CONTROL_PUBSUB, {
+                        'cmd': 'register_named_env',
+                        'arg': {'env_name': sc['ops'][idx][2]}})
                 else:
                     flush()
                     op = sc['ops'][idx]
